@@ -66,6 +66,64 @@ def two_pass(ctx, h, drv, name, cases, model=True):
                            "impl_output": (bad[2] if bad else err[-2000:])}, found_input=True)
 
 
+def client_level(ctx, drv):
+    """The same round trip at the level a user sees it: the REAL libmunge munge_encode() / munge_decode() (encode.c, decode.c,
+    ctx.c, m_msg_client.c) against the real daemon code, through the C13 harness with no faults injected; toy primitives,
+    byte-exact against the model (Driver/Retry), plus the oracle on munge_decode's outputs."""
+    try:
+        from . import c13
+        from ..gen import g_retry
+        g_retry.generate(ctx)
+        h = c13.build_toy(ctx)
+        if not h:
+            return
+        r = ctx.rng
+        cases = []
+        for e in K.enc_cases(r, 60 if ctx.tier == "quick" else 600):
+            c, m, z, t = K.resolved(e)
+            if (c, m) not in K.VALID_TOY:
+                continue
+            cases.append(dict(c=e["cipher"], m=e["mac"], z=e["zip"], ttl=e["ttl"], au=e["auth_uid"], ag=e["auth_gid"], realm=e["realm"],
+                              data=e["data"], uid=e["uid"], gid=e["gid"], rnd=e["rnd"], now=e["now"], _e=e))
+        ops = ["retry reset"] + [c13.enc_line(e, "-") for e in cases]
+        rc, out, err = cbuild.run_lines([h, ctx.work], ops)
+        expect = [None] * len(ops)
+        for e, l in zip(cases, out[1:]):
+            kv = c13.fields(l)
+            if kv.get("err") == "0" and kv.get("cred") not in (None, "NULL"):
+                ops.append(c13.dec_line(e, bytes.fromhex(kv["cred"]), "-"))
+                expect.append(e)
+        st = {"i": 0}
+
+        def oracle(op, outl):
+            i = st["i"]; st["i"] += 1
+            e = expect[i] if i < len(expect) else None
+            if e is None:
+                return None
+            kv = c13.fields(outl)
+            if kv.get("err") != "0":
+                return "munge_decode of a fresh credential returned error %s" % kv.get("err")
+            data = b"" if kv.get("data") in ("-", "NULL", None) else bytes.fromhex(kv["data"])
+            if data != e["data"] or int(kv.get("len", -1)) != len(e["data"]):
+                return "munge_decode returned a different payload / length (%s bytes for %d)" % (kv.get("len"), len(e["data"]))
+            if int(kv["uid"]) != e["uid"] or int(kv["gid"]) != e["gid"]:
+                return "munge_decode returned uid/gid %s:%s, the encoder was %d:%d" % (kv["uid"], kv["gid"], e["uid"], e["gid"])
+            c, m, z, t = K.resolved(e["_e"])
+            if int(kv["cipher"]) != c or int(kv["mac"]) != m or int(kv["zip"]) not in (0, z) or int(kv["ttl"]) != t:
+                return "context metadata (cipher/mac/zip/ttl = %s/%s/%s/%s) differs from the resolved request" % (kv["cipher"], kv["mac"], kv["zip"], kv["ttl"])
+            if int(kv["au"]) != e["au"] or int(kv["ag"]) != e["ag"]:
+                return "restrictions differ"
+            return None
+        for o in ops:
+            ctx.distinct(o)
+        ctx.dist("client_level_encodes", len(cases)); ctx.dist("client_level_decodes", len(ops) - 1 - len(cases))
+        if len(ops) > len(cases) + 1:
+            ctx.sample({"stream": "client-level", "op": ops[len(cases) + 1][:200]})
+        judge.run_and_judge(ctx, "client-level", ops, [h, ctx.work], [drv], oracle=oracle, what="round trip through libmunge")
+    except ImportError as e:
+        ctx.log("client-level stream skipped: %r" % e)
+
+
 def size_limit_ops(r):
     """payloads around the point where the request / the credential no longer fits in 1 MiB"""
     ops, want = [], []
@@ -97,6 +155,7 @@ def run(ctx):
     two_pass(ctx, htoy, drv, "roundtrip-toy", K.enc_cases(ctx.rng, n))
     sizes = K.SIZES + ([4096, 65536] if ctx.tier == "quick" else [4096, 65536, 300000, 786000])
     two_pass(ctx, hreal, drv, "roundtrip-real", K.enc_cases(ctx.rng, n // 2, sizes), model=False)
+    client_level(ctx, drv)
     # size limit: real build only (the model's list-based base64 is quadratic)
     lim = size_limit_ops(ctx.rng)
     rc, out, err = cbuild.run_lines([hreal], [o for o, _ in lim], timeout=600)
